@@ -267,41 +267,13 @@ class OverflowPage(Page):
                 payload_remaining + OVERFLOW_HEADER_LENGTH
             )
 
-        if self.next_overflow_page_number:
+        """
 
-            """
+        Note:  An overflow chain may span versions.  When a value is updated in place without changing its size,
+               SQLite rewrites only the overflow pages whose content changed, so the next overflow page can belong to
+               an earlier (or later) version than this one.  No version check is made between the pages of a chain.
 
-            Here we make the assumption that all overflow pages have to be replaced when any overflow page in a chain
-            is updated.  In other words, when a overflow chain is changed in a version, all overflow pages in that chain
-            belong to that version.  This is due to the face that all overflow pages in a chain pertain to a cell that
-            was modified and therefore all overflow pages belonging to that record need to be reinserted even if the
-            same as before.
-
-            Here we check the version of the overflow page that this one points to.  If the versions of the two pages
-            are different we throw an exception.
-
-            Since overflow pages are in a chain, this check is done on each creation of the next overflow page for the
-            following overflow page if it exists.
-
-            """
-
-            next_overflow_page_version = self._version_interface.get_page_version(
-                self.next_overflow_page_number
-            )
-            if self.page_version_number != next_overflow_page_version:
-                log_message = (
-                    "The version of the current overflow page: {} on version: {} on page: {} has points to "
-                    "a next overflow page version: {} for page: {} that has a different version."
-                )
-                log_message = log_message.format(
-                    self.page_version_number,
-                    self.version_number,
-                    self.number,
-                    next_overflow_page_version,
-                    self.next_overflow_page_number,
-                )
-                self._logger.error(log_message)
-                raise PageParsingError(log_message)
+        """
 
     def stringify(self, padding=""):
         string = (
